@@ -2221,3 +2221,166 @@ Proof.
   destruct (absent_op sc o R x H1 Hx Ab) as (a1&g1&l1).
   destruct (IH (spec_op sc o R) x H2 g1 a1) as (a2&l2). split; auto.
 Qed.
+
+(* --- records of another list are not touched by a pass, except that they may be deleted --- *)
+Lemma find_back_spec_loop : forall sc k k' sz x r', k' <> k ->
+  forall snap R, WF R -> (x < g_next R)%nat ->
+  find_rec x (rget k' (spec_loop sc k sz snap R)) = Some r' -> find_rec x (rget k' R) = Some r'.
+Proof.
+  intros sc k k' sz x r' N. induction snap as [|y snap IH]; intros R W Hx F; cbn [spec_loop] in F; auto.
+  destruct (find_rec y (rget k R)) as [r|]; auto.
+  destruct (s_gate k R r && s_match k r sz (g_clock R)); auto.
+  destruct (sc _ (r_cb r) (r_ud r)) as [acts ret].
+  set (R1 := r_update k y (rec_stamp k (g_clock R)) R) in *.
+  set (R2 := rset_log R1 (EvCall y (r_cb r) (r_ud r) (r_user r) k (g_clock R1) ret :: g_log R1)) in *.
+  assert (W2 : WF R2).
+  { apply wf_rset_log. apply wf_r_update; auto. intro. apply hid_rec_stamp. }
+  assert (G2 : g_next R2 = g_next R) by (unfold R2, R1, r_update; simpl; apply g_next_rset).
+  assert (E2 : rget k' R2 = rget k' R).
+  { replace (rget k' R2) with (rget k' R1) by (destruct k'; reflexivity).
+    unfold R1, r_update. apply rget_rset_other; auto. }
+  rewrite <- E2. apply (find_back_actions acts R2); auto; [lia|].
+  pose proof (wf_actions acts R2 W2) as W3.
+  pose proof (g_next_actions acts R2) as G3.
+  destruct ret.
+  - apply IH in F; auto. lia.
+  - apply IH in F.
+    + unfold r_remove in F. rewrite rget_rset_other in F; auto.
+    + apply wf_r_remove; auto.
+    + unfold r_remove. rewrite g_next_rset. lia.
+Qed.
+
+Lemma find_rec_map : forall (f : hrec -> hrec) x l, (forall r, hid (f r) = hid r) ->
+  find_rec x (map f l) = option_map f (find_rec x l).
+Proof.
+  intros f x l Hf. unfold find_rec. induction l as [|q l IH]; simpl; auto.
+  rewrite Hf. destruct (Nat.eqb (hid q) x); auto.
+Qed.
+
+Lemma find_r_enable_same : forall k R x r, find_rec x (rget k R) = Some r ->
+  find_rec x (rget k (r_enable k R)) = Some (rec_enabled r true).
+Proof. intros. rewrite rget_r_enable_same, find_rec_map; auto. rewrite H. reflexivity. Qed.
+
+Lemma s_match_enabled : forall k r sz now, s_match k (rec_enabled r true) sz now = s_match k r sz now.
+Proof. reflexivity. Qed.
+
+Lemma find_lt : forall R k x r, WF R -> find_rec x (rget k R) = Some r -> (x < g_next R)%nat.
+Proof. intros R k x r W F. apply find_rec_some_in in F. destruct F as [F <-]. eapply (wf_lt _ W); eauto. Qed.
+
+Lemma find_in_hids : forall l x r, find_rec x l = Some r -> In x (hids l).
+Proof. intros. apply find_rec_some_in in H. destruct H as [H <-]. apply in_hids. auto. Qed.
+
+Lemma pass_complete : forall sc k sz R x r, WF R ->
+  find_rec x (rget k R) = Some r -> s_gate k R r = true -> s_match k r sz (g_clock R) = true ->
+  (exists ret, In (EvCall x (r_cb r) (r_ud r) (r_user r) k (g_clock R) ret) (g_log (spec_loop sc k sz (hids (rget k R)) R))) \/
+  present (rget k (spec_loop sc k sz (hids (rget k R)) R)) x = false.
+Proof.
+  intros. apply spec_loop_complete; auto.
+  - apply (wf_nodup _ H).
+  - intros h Hh. apply in_hids_inv in Hh. destruct Hh as [q [Hq <-]]. eapply (wf_lt _ H); eauto.
+  - eapply find_in_hids; eauto.
+Qed.
+
+(* a due timed handler of a connected connection fires in this pass (unless a handler served earlier
+   in the pass deleted it) *)
+Theorem timed_due_fires_lemma : forall sc R x r,
+  WF R -> g_conn R = true -> find_rec x (rget KTimed R) = Some r ->
+  s_gate KTimed R r = true -> s_match KTimed r no_stanza (g_clock R) = true ->
+  (exists ret, In (EvCall x (r_cb r) (r_ud r) (r_user r) KTimed (g_clock R) ret) (g_log (spec_fire_timed sc R))) \/
+  present (rget KTimed (spec_fire_timed sc R)) x = false.
+Proof.
+  intros sc R x r W HC F G M. unfold spec_fire_timed. rewrite HC.
+  set (R0 := r_enable KTimed R).
+  assert (W0 : WF R0) by (apply wf_r_enable; auto).
+  assert (F0 : find_rec x (rget KTimed R0) = Some (rec_enabled r true)) by (apply find_r_enable_same; auto).
+  assert (G0 : s_gate KTimed R0 (rec_enabled r true) = true).
+  { rewrite (s_gate_neg KTimed R R0 _ (g_neg_r_enable KTimed R)). exact G. }
+  assert (M0 : s_match KTimed (rec_enabled r true) no_stanza (g_clock R0) = true).
+  { unfold R0. rewrite g_clock_r_enable. exact M. }
+  destruct (pass_complete sc KTimed no_stanza R0 x _ W0 F0 G0 M0) as [[ret H]|H].
+  - left. exists ret. apply log_mono_spec_loop. unfold R0 in H at 1. rewrite g_clock_r_enable in H. exact H.
+  - right. apply absent_spec_loop; auto.
+    pose proof (g_next_spec_loop sc KTimed no_stanza (hids (rget KTimed R0)) R0).
+    pose proof (find_lt _ _ _ _ W F). assert (g_next R0 = g_next R) by apply g_next_r_enable. lia.
+Qed.
+
+(* a due context-wide handler fires in this pass whatever the state of the connection *)
+Theorem global_due_fires_lemma : forall sc R x r,
+  WF R -> find_rec x (rget KGlobal R) = Some r -> s_match KGlobal r no_stanza (g_clock R) = true ->
+  (exists ret, In (EvCall x (r_cb r) (r_ud r) (r_user r) KGlobal (g_clock R) ret) (g_log (spec_fire_timed sc R))) \/
+  present (rget KGlobal (spec_fire_timed sc R)) x = false.
+Proof.
+  intros sc R x r W F M. unfold spec_fire_timed.
+  set (R1 := if g_conn R then spec_loop sc KTimed no_stanza (hids (rget KTimed (r_enable KTimed R))) (r_enable KTimed R) else R).
+  pose proof (find_lt _ _ _ _ W F) as Hx.
+  assert (H1 : WF R1 /\ g_clock R1 = g_clock R /\ (g_next R <= g_next R1)%nat /\
+               forall r', find_rec x (rget KGlobal R1) = Some r' -> r' = r).
+  { unfold R1. destruct (g_conn R).
+    - set (R0 := r_enable KTimed R).
+      assert (W0 : WF R0) by (apply wf_r_enable; auto).
+      destruct (stable_spec_loop sc KTimed no_stanza (hids (rget KTimed R0)) R0) as (_&c&_).
+      split; [|split; [|split]].
+      + apply wf_spec_loop; auto.
+      + rewrite c. apply g_clock_r_enable.
+      + pose proof (g_next_spec_loop sc KTimed no_stanza (hids (rget KTimed R0)) R0).
+        assert (g_next R0 = g_next R) by apply g_next_r_enable. lia.
+      + intros r' Fr. apply find_back_spec_loop in Fr; auto; try congruence;
+          try (unfold R0; rewrite g_next_r_enable; exact Hx).
+        all: try (unfold R0 in Fr; rewrite rget_r_enable_other in Fr by congruence; congruence).
+    - split; [exact W|split; [reflexivity|split; [lia|]]]. intros r' Fr. congruence. }
+  destruct H1 as (W1&C1&G1&FB).
+  destruct (present (rget KGlobal R1) x) eqn:P1.
+  - destruct (present_find _ _ P1) as [r1 F1]. pose proof (FB _ F1). subst r1.
+    rewrite <- C1. apply pass_complete; auto. rewrite C1. exact M.
+  - right. apply absent_spec_loop; auto. lia.
+Qed.
+
+(* a registered stanza handler whose filter matches is called for the stanza (unless a handler called
+   earlier for the same stanza deleted it) *)
+Theorem stanza_match_fires_lemma : forall sc sz R x r,
+  WF R -> find_rec x (rget KStanza R) = Some r -> s_gate KStanza R r = true ->
+  s_match KStanza r sz (g_clock R) = true ->
+  (exists ret, In (EvCall x (r_cb r) (r_ud r) (r_user r) KStanza (g_clock R) ret) (g_log (spec_fire_stanza sc sz R))) \/
+  present (rget KStanza (spec_fire_stanza sc sz R)) x = false.
+Proof.
+  intros sc sz R x r W F G M. unfold spec_fire_stanza.
+  set (R1 := r_enable KStanza R).
+  assert (W1 : WF R1) by (apply wf_r_enable; auto).
+  assert (F1 : find_rec x (rget KStanza R1) = Some (rec_enabled r true)) by (apply find_r_enable_same; auto).
+  pose proof (find_lt _ _ _ _ W F) as Hx.
+  set (R2 := match st_id sz with
+             | Some id => spec_loop sc (KId id) sz (hids (rget (KId id) (r_enable (KId id) R1))) (r_enable (KId id) R1)
+             | None => R1 end).
+  assert (H2 : WF R2 /\ g_clock R2 = g_clock R /\ g_neg R2 = g_neg R /\ (g_next R <= g_next R2)%nat /\
+               forall r', find_rec x (rget KStanza R2) = Some r' -> r' = rec_enabled r true).
+  { unfold R2. destruct (st_id sz) as [id|].
+    - set (R1' := r_enable (KId id) R1).
+      assert (W1' : WF R1') by (apply wf_r_enable; auto).
+      destruct (stable_spec_loop sc (KId id) sz (hids (rget (KId id) R1')) R1') as (a&c&_).
+      split; [apply wf_spec_loop; auto | split; [|split; [|split]]].
+      + rewrite c. unfold R1', R1. rewrite !g_clock_r_enable. reflexivity.
+      + rewrite a. unfold R1', R1. rewrite !g_neg_r_enable. reflexivity.
+      + pose proof (g_next_spec_loop sc (KId id) sz (hids (rget (KId id) R1')) R1').
+        assert (g_next R1' = g_next R) by (unfold R1', R1; rewrite !g_next_r_enable; reflexivity). lia.
+      + intros r' Fr. apply find_back_spec_loop in Fr; auto; try congruence;
+          try (unfold R1', R1; rewrite !g_next_r_enable; exact Hx).
+        all: try (unfold R1' in Fr; rewrite rget_r_enable_other in Fr by congruence; congruence).
+    - split; [exact W1 | split; [apply g_clock_r_enable | split; [apply g_neg_r_enable | split]]].
+      + unfold R1. rewrite g_next_r_enable. lia.
+      + intros r' Fr. congruence. }
+  destruct H2 as (W2&C2&N2&G2&FB).
+  destruct (present (rget KStanza R2) x) eqn:P2.
+  - destruct (present_find _ _ P2) as [r2 F2]. pose proof (FB _ F2). subst r2.
+    assert (X : (exists ret, In (EvCall x (r_cb (rec_enabled r true)) (r_ud (rec_enabled r true)) (r_user (rec_enabled r true)) KStanza (g_clock R2) ret)
+                      (g_log (spec_loop sc KStanza sz (hids (rget KStanza R1)) R2))) \/
+                present (rget KStanza (spec_loop sc KStanza sz (hids (rget KStanza R1)) R2)) x = false).
+    { apply spec_loop_complete; auto.
+      - apply (wf_nodup _ W1).
+      - intros h Hh. apply in_hids_inv in Hh. destruct Hh as [q [Hq <-]].
+        pose proof (wf_lt _ W1 _ _ Hq). assert (g_next R1 = g_next R) by apply g_next_r_enable. lia.
+      - eapply find_in_hids; eauto.
+      - rewrite (s_gate_neg KStanza R R2 _ N2). exact G.
+      - rewrite C2. exact M. }
+    rewrite C2 in X. exact X.
+  - right. apply absent_spec_loop; auto. lia.
+Qed.
